@@ -1,6 +1,7 @@
 package main
 
 import (
+	"time"
 	"bytes"
 	"errors"
 	"fmt"
@@ -44,6 +45,15 @@ func errClass(err error) string {
 	return "other"
 }
 
+var c14Focus = []string{
+	"{% for q in ll %}{% spaceless %}{% ifchanged %}<b>{{ sint }}</b> {% endifchanged %}<i>{{ q }}</i> {% endspaceless %}{% endfor %}",
+	"{% for q in ll %}{% filter upper %}{% ifchanged %}[fruit] {% endifchanged %}{{ q }};{% endfilter %}{% endfor %}",
+	"{% for q in ll %}{% filter lower %}{% spaceless %}<a> {% ifchanged %}<b>K</b>{% endifchanged %} </a>{% endspaceless %}{% endfilter %}{% endfor %}",
+	"{% for q in ll %}{% ifchanged %}A{% endifchanged %}{% spaceless %}<p> {{ q }} </p> {% endspaceless %}{% endfor %}",
+	"{{ sint|safe }}|{{ dur|safe }}|{{ month|safe }}|{% autoescape off %}{{ sint }} {{ dur }} {{ month }}{% endautoescape %}|{{ sint }}{{ dur }}",
+	"{% autoescape off %}{% for q in ll %}{{ dur }}{{ q }}{% endfor %}{% endautoescape %}{% firstof sint|safe %}",
+}
+
 func suiteC14(cfg Config, res *Result) {
 	res.Rule = "grammar-generated programs in which the k-th output position is a fault point {{ 1/zz }} (zz = 0: execution error there; zz = 1: fault-free), for every k, plus the same programs without fault; each executed through Execute, ExecuteBytes, ExecuteWriter (to a plain io.Writer, to one that also has WriteString, to a *bytes.Buffer) and ExecuteWriterUnbuffered with a recording writer, and through ExecuteWriter / ExecuteWriterUnbuffered with a writer that starts failing after 0..3 calls (programs include sub-templates), and with contexts the engine rejects (a key that is not an identifier, a key that is an exported macro's name); oracle: the four variants produce the same bytes and fail in the same cases; on failure ExecuteWriter wrote nothing and the unbuffered variant a prefix of the fault-free output; a failing caller's writer makes the call return an error — never a panic — having written a prefix; non-trivial = program with a fault point behind >= 1 output; distinct by (program, fault position)"
 	n := 1500
@@ -67,6 +77,10 @@ func suiteC14(cfg Config, res *Result) {
 			k = rng.Intn(len(idxs))
 			src = src[:idxs[k]] + "{{ 1/zz }}" + src[idxs[k]:]
 		}
+		if i%4 == 0 {
+			// constructs that render through a scratch buffer, nested, and values that print themselves
+			src = rng.Pick(c14Focus) + src
+		}
 		pc.Src = src + "{% macro xm() export %}{% endmacro %}"
 		set, _ := pc.buildSet()
 		var tpl *pongo2.Template
@@ -85,6 +99,10 @@ func suiteC14(cfg Config, res *Result) {
 		mk := func(zz int) pongo2.Context {
 			c := pc.Ctx.Go()
 			c["zz"] = zz
+			c["sint"] = SInt(5)
+			c["dur"] = 90 * time.Second
+			c["month"] = time.March
+			c["ll"] = []string{"x", "y", "z"}
 			switch zz {
 			case 2:
 				c["user-id"] = 1 // not an identifier: every entry point rejects the context
